@@ -14,6 +14,10 @@ func (m *Machine) bigOf(v Value) BigV {
 	case BigV:
 		return x
 	case Ptr:
+		if x.obj == nil && len(x.alts) == 0 {
+			m.oblige(m.cbool(false), "nil *big.Int dereference", "")
+			m.fail("nil big")
+		}
 		return m.bigOf(m.load(x))
 	case StructV: // wrapper structs embedding a big.Int as first field (compatible.Int, compatiblemod.Mod)
 		return m.bigOf(x.fields[0])
